@@ -38,10 +38,37 @@ import (
 	"github.com/osrg/gobgp/v4/pkg/packet/bgp"
 )
 
+type c15PfxEnt struct {
+	base   uint32 // prefix address
+	plen   int
+	lo, hi int // mask-length range
+}
+
+func (e c15PfxEnt) cidr() string {
+	return fmt.Sprintf("%d.%d.%d.%d/%d", byte(e.base>>24), byte(e.base>>16), byte(e.base>>8), byte(e.base), e.plen)
+}
+
+type c15AspEnt struct {
+	mode int // 0 `_N_` include, 1 `^N_` left-most, 2 `_N$` origin, 3 `^N$` only
+	asn  uint32
+}
+
+func (e c15AspEnt) str() string {
+	return fmt.Sprintf([]string{"_%d_", "^%d_", "_%d$", "^%d$"}[e.mode], e.asn)
+}
+
+// c15Stmt: one policy statement. Every set condition is kept here as the LOGICAL member list
+// (what the configuration says after every append / remove / replace); the real defined sets
+// are edited through the API and the fresh server of the metamorphic oracle is configured from
+// these lists, never from the edited set objects.
 type c15Stmt struct {
-	comm         uint32
+	comms        []uint32 // community-set members (empty: no condition)
 	anyPeer      bool
-	peers        []int
+	peers        []int // neighbor-set members
+	hasPfx       bool
+	pfx          []c15PfxEnt // prefix-set members
+	hasAsp       bool
+	asp          []c15AspEnt // as-path-set members
 	med, lp, add *uint32
 	route        int // 0 none, 1 accept, 2 reject
 	lenOp, lenN  int // as-path-length condition: lenOp 0 none, 1 eq, 2 ge, 3 le
@@ -59,19 +86,22 @@ func c15Opt(p *uint32) string {
 	return fmt.Sprintf("1 %d", *p)
 }
 
+func c15B(b bool) int {
+	if b {
+		return 1
+	}
+	return 0
+}
+
 func (p *c15Pol) line(dir string) string {
 	var sb strings.Builder
-	d := 0
-	if p.dflt {
-		d = 1
-	}
-	fmt.Fprintf(&sb, "pol %s %d %d", dir, d, len(p.stmts))
+	fmt.Fprintf(&sb, "pol %s %d %d", dir, c15B(p.dflt), len(p.stmts))
 	for _, s := range p.stmts {
-		a := 0
-		if s.anyPeer {
-			a = 1
+		fmt.Fprintf(&sb, " %d", len(s.comms))
+		for _, c := range s.comms {
+			fmt.Fprintf(&sb, " %d", c)
 		}
-		fmt.Fprintf(&sb, " %d %d %d", s.comm, a, len(s.peers))
+		fmt.Fprintf(&sb, " %d %d", c15B(s.anyPeer), len(s.peers))
 		for _, x := range s.peers {
 			fmt.Fprintf(&sb, " %d", x)
 		}
@@ -80,6 +110,14 @@ func (p *c15Pol) line(dir string) string {
 			sb.WriteString(" 0 0 0")
 		} else {
 			fmt.Fprintf(&sb, " 1 %d %d", s.lenOp-1, s.lenN)
+		}
+		fmt.Fprintf(&sb, " %d %d", c15B(s.hasPfx), len(s.pfx))
+		for _, e := range s.pfx {
+			fmt.Fprintf(&sb, " %d %d %d %d", e.base, e.plen, e.lo, e.hi)
+		}
+		fmt.Fprintf(&sb, " %d %d", c15B(s.hasAsp), len(s.asp))
+		for _, e := range s.asp {
+			fmt.Fprintf(&sb, " %d %d", e.mode, e.asn)
 		}
 	}
 	return sb.String()
@@ -97,17 +135,38 @@ func c15ParsePol(f []string) (string, c15Pol) {
 	p := c15Pol{dflt: n(2) == 1}
 	i := 4
 	for k := n(3); k > 0; k-- {
-		s := c15Stmt{comm: uint32(n(i)), anyPeer: n(i+1) == 1}
-		cnt := n(i + 2)
-		for j := 0; j < cnt; j++ {
-			s.peers = append(s.peers, n(i+3+j))
+		s := c15Stmt{}
+		for j := n(i); j > 0; j-- {
+			i++
+			s.comms = append(s.comms, uint32(n(i)))
 		}
-		i += 3 + cnt
+		i++
+		s.anyPeer = n(i) == 1
+		i++
+		for j := n(i); j > 0; j-- {
+			i++
+			s.peers = append(s.peers, n(i))
+		}
+		i++
 		s.med, s.lp, s.add, s.route = opt(i), opt(i+2), opt(i+4), n(i+6)
 		if n(i+7) == 1 {
 			s.lenOp, s.lenN = n(i+8)+1, n(i+9)
 		}
 		i += 10
+		s.hasPfx = n(i) == 1
+		i++
+		for j := n(i); j > 0; j-- {
+			s.pfx = append(s.pfx, c15PfxEnt{base: uint32(n(i + 1)), plen: n(i + 2), lo: n(i + 3), hi: n(i + 4)})
+			i += 4
+		}
+		i++
+		s.hasAsp = n(i) == 1
+		i++
+		for j := n(i); j > 0; j-- {
+			s.asp = append(s.asp, c15AspEnt{mode: n(i + 1), asn: uint32(n(i + 2))})
+			i += 2
+		}
+		i++
 		p.stmts = append(p.stmts, s)
 	}
 	return f[1], p
@@ -163,6 +222,7 @@ type c15World struct {
 	gen   int
 	name  [2]string // policy currently assigned per direction (0 import, 1 export)
 	cur   [2]c15Pol
+	r     *vRand // choices of the in-place set edits (nil in replays)
 }
 
 var c15Dirs = [2]string{"imp", "exp"}
@@ -193,24 +253,71 @@ func (cw *c15World) addPeer(sp vwPeerSpec) {
 
 // --- real policy configuration through the API -------------------------------------------
 
+// setMembers renders the four defined sets of one statement from the logical member lists.
+// kind: 0 community, 1 neighbor, 2 prefix, 3 as-path.
+func (cw *c15World) definedSet(tag string, i, kind int, s c15Stmt) *api.DefinedSet {
+	switch kind {
+	case 0:
+		ds := &api.DefinedSet{DefinedType: api.DefinedType_DEFINED_TYPE_COMMUNITY, Name: fmt.Sprintf("%s-c%d", tag, i)}
+		for _, c := range s.comms {
+			ds.List = append(ds.List, fmt.Sprintf("^%d:%d$", c>>16, c&0xffff))
+		}
+		return ds
+	case 1:
+		ds := &api.DefinedSet{DefinedType: api.DefinedType_DEFINED_TYPE_NEIGHBOR, Name: fmt.Sprintf("%s-n%d", tag, i)}
+		for _, x := range s.peers {
+			ds.List = append(ds.List, cw.w.peers[x].spec.addr.String()+"/32")
+		}
+		return ds
+	case 2:
+		ds := &api.DefinedSet{DefinedType: api.DefinedType_DEFINED_TYPE_PREFIX, Name: fmt.Sprintf("%s-p%d", tag, i)}
+		for _, e := range s.pfx {
+			ds.Prefixes = append(ds.Prefixes, &api.Prefix{IpPrefix: e.cidr(), MaskLengthMin: uint32(e.lo), MaskLengthMax: uint32(e.hi)})
+		}
+		return ds
+	default:
+		ds := &api.DefinedSet{DefinedType: api.DefinedType_DEFINED_TYPE_AS_PATH, Name: fmt.Sprintf("%s-a%d", tag, i)}
+		for _, e := range s.asp {
+			ds.List = append(ds.List, e.str())
+		}
+		return ds
+	}
+}
+
+func c15HasSet(s c15Stmt, kind int) bool {
+	switch kind {
+	case 0:
+		return len(s.comms) > 0
+	case 1:
+		return !s.anyPeer
+	case 2:
+		return s.hasPfx
+	}
+	return s.hasAsp
+}
+
 func (cw *c15World) apiPolicy(name string, tag string, pol c15Pol) (*api.Policy, []*api.DefinedSet) {
 	var sets []*api.DefinedSet
 	p := &api.Policy{Name: name}
 	for i, s := range pol.stmts {
 		st := &api.Statement{Name: fmt.Sprintf("%s-s%d", tag, i), Conditions: &api.Conditions{}, Actions: &api.Actions{}}
-		if s.comm != 0 {
-			cs := &api.DefinedSet{DefinedType: api.DefinedType_DEFINED_TYPE_COMMUNITY, Name: fmt.Sprintf("%s-c%d", tag, i),
-				List: []string{fmt.Sprintf("^%d:%d$", s.comm>>16, s.comm&0xffff)}}
-			sets = append(sets, cs)
-			st.Conditions.CommunitySet = &api.MatchSet{Name: cs.Name, Type: api.MatchSet_TYPE_ANY}
-		}
-		if !s.anyPeer {
-			ns := &api.DefinedSet{DefinedType: api.DefinedType_DEFINED_TYPE_NEIGHBOR, Name: fmt.Sprintf("%s-n%d", tag, i)}
-			for _, x := range s.peers {
-				ns.List = append(ns.List, cw.w.peers[x].spec.addr.String()+"/32")
+		for kind := 0; kind < 4; kind++ {
+			if !c15HasSet(s, kind) {
+				continue
 			}
-			sets = append(sets, ns)
-			st.Conditions.NeighborSet = &api.MatchSet{Name: ns.Name, Type: api.MatchSet_TYPE_ANY}
+			ds := cw.definedSet(tag, i, kind, s)
+			sets = append(sets, ds)
+			ms := &api.MatchSet{Name: ds.Name, Type: api.MatchSet_TYPE_ANY}
+			switch kind {
+			case 0:
+				st.Conditions.CommunitySet = ms
+			case 1:
+				st.Conditions.NeighborSet = ms
+			case 2:
+				st.Conditions.PrefixSet = ms
+			default:
+				st.Conditions.AsPathSet = ms
+			}
 		}
 		if s.lenOp != 0 {
 			st.Conditions.AsPathLength = &api.AsPathLength{Type: []api.Comparison{api.Comparison_COMPARISON_EQ, api.Comparison_COMPARISON_GE, api.Comparison_COMPARISON_LE}[s.lenOp-1], Length: uint32(s.lenN)}
@@ -250,12 +357,44 @@ func c15Direction(d int) api.PolicyDirection {
 	return api.PolicyDirection_POLICY_DIRECTION_EXPORT
 }
 
+// members of a defined set as comparable strings (List for the list types, "cidr lo..hi" for
+// prefixes), in configuration order
+func c15Members(ds *api.DefinedSet) []string {
+	if ds.DefinedType == api.DefinedType_DEFINED_TYPE_PREFIX {
+		var l []string
+		for _, p := range ds.Prefixes {
+			l = append(l, fmt.Sprintf("%s %d..%d", p.IpPrefix, p.MaskLengthMin, p.MaskLengthMax))
+		}
+		return l
+	}
+	return ds.List
+}
+
+// subset of ds holding only the members for which keep(member) is true
+func c15Subset(ds *api.DefinedSet, keep func(string) bool) *api.DefinedSet {
+	out := &api.DefinedSet{DefinedType: ds.DefinedType, Name: ds.Name}
+	for k, m := range c15Members(ds) {
+		if !keep(m) {
+			continue
+		}
+		if ds.DefinedType == api.DefinedType_DEFINED_TYPE_PREFIX {
+			out.Prefixes = append(out.Prefixes, ds.Prefixes[k])
+		} else {
+			out.List = append(out.List, ds.List[k])
+		}
+	}
+	return out
+}
+
 // install makes `pol` the policy of direction d (0 import, 1 export).
 //
 //	mode 0: new defined sets + new policy (AddDefinedSet, AddPolicy), then SetPolicyAssignment
 //	mode 1: SetPolicies — every definition replaced, the assignment keeps its policy name
 //	        (the default action cannot change this way; the caller keeps it)
-//	mode 2: only neighbor sets differ: AddDefinedSet{Replace} of those sets
+//	mode 2: only the members of defined sets differ: every changed set is edited IN PLACE —
+//	        either AddDefinedSet{Replace} with the new member list, or AddDefinedSet (append)
+//	        of the added members followed by DeleteDefinedSet{All: false} (remove) of the
+//	        dropped ones; `how` (edit >= 0) picks per set: bit k of edit = replace
 func (cw *c15World) install(d int, pol c15Pol, mode int) string {
 	ctx := context.Background()
 	s := cw.w.s
@@ -267,16 +406,47 @@ func (cw *c15World) install(d int, pol c15Pol, mode int) string {
 	cw.gen++
 	switch mode {
 	case 2:
-		// same statements, other neighbor sets: replace the sets in place
 		tag := cw.name[d]
-		_, sets := cw.apiPolicy(cw.name[d], tag, pol)
-		for _, ds := range sets {
-			if ds.DefinedType == api.DefinedType_DEFINED_TYPE_NEIGHBOR {
-				must(s.AddDefinedSet(ctx, &api.AddDefinedSetRequest{DefinedSet: ds, Replace: true}), "AddDefinedSet replace")
+		_, oldSets := cw.apiPolicy(tag, tag, cw.cur[d])
+		_, newSets := cw.apiPolicy(tag, tag, pol)
+		if len(oldSets) != len(newSets) {
+			cw.t.Fatalf("in-place edit with different statement shapes")
+		}
+		var hows []string
+		for k, ns := range newSets {
+			os := oldSets[k]
+			oldM, newM := map[string]bool{}, map[string]bool{}
+			for _, m := range c15Members(os) {
+				oldM[m] = true
+			}
+			for _, m := range c15Members(ns) {
+				newM[m] = true
+			}
+			added := c15Subset(ns, func(m string) bool { return !oldM[m] })
+			removed := c15Subset(os, func(m string) bool { return !newM[m] })
+			if len(c15Members(added)) == 0 && len(c15Members(removed)) == 0 {
+				continue
+			}
+			kind := strings.ToLower(strings.TrimPrefix(ns.DefinedType.String(), "DEFINED_TYPE_"))
+			if cw.editReplace() {
+				must(s.AddDefinedSet(ctx, &api.AddDefinedSetRequest{DefinedSet: ns, Replace: true}), "AddDefinedSet replace")
+				hows = append(hows, "edit-replace-"+kind)
+				continue
+			}
+			if len(c15Members(added)) > 0 {
+				must(s.AddDefinedSet(ctx, &api.AddDefinedSetRequest{DefinedSet: added}), "AddDefinedSet append")
+				hows = append(hows, "edit-append-"+kind)
+			}
+			if len(c15Members(removed)) > 0 {
+				must(s.DeleteDefinedSet(ctx, &api.DeleteDefinedSetRequest{DefinedSet: removed}), "DeleteDefinedSet remove")
+				hows = append(hows, "edit-remove-"+kind)
 			}
 		}
 		cw.cur[d] = pol
-		return "replace-neighbor-set"
+		if len(hows) == 0 {
+			return "edit-none"
+		}
+		return strings.Join(hows, ",")
 	case 1:
 		if cw.name[d] == "" {
 			return cw.install(d, pol, 0)
@@ -313,15 +483,50 @@ func (cw *c15World) install(d int, pol c15Pol, mode int) string {
 	}
 }
 
-// sameButNeighbors: q differs from p at most in the members of existing neighbor sets.
-func c15SameButNeighbors(p, q c15Pol) bool {
+// checkSets: every defined set of the current policy of direction d, as the server lists it,
+// holds exactly the configured members (model-independent; covers every in-place edit).
+func (cw *c15World) checkSets(d int, fail func(class string, detail any)) {
+	if cw.name[d] == "" {
+		return
+	}
+	_, sets := cw.apiPolicy(cw.name[d], cw.name[d], cw.cur[d])
+	for _, want := range sets {
+		var have []string
+		err := cw.w.s.ListDefinedSet(context.Background(), &api.ListDefinedSetRequest{DefinedType: want.DefinedType, Name: want.Name}, func(ds *api.DefinedSet) {
+			have = append(have, c15Members(ds)...)
+		})
+		w := append([]string{}, c15Members(want)...)
+		sort.Strings(have)
+		sort.Strings(w)
+		if err != nil || strings.Join(have, "|") != strings.Join(w, "|") {
+			kind := strings.ToLower(strings.TrimPrefix(want.DefinedType.String(), "DEFINED_TYPE_"))
+			fail("defined-set!=configured-members:"+kind, map[string]any{"set": want.Name, "listed": have, "configured": w, "err": fmt.Sprint(err)})
+		}
+	}
+}
+
+// editReplace: replace the set (true) or append + remove members (false). Replays (no PRNG)
+// always append + remove.
+func (cw *c15World) editReplace() bool { return cw.r != nil && cw.r.chance(25) }
+
+// c15SameButSets: q differs from p at most in the members of the defined sets its statements
+// refer to (every set exists in both and stays non-empty).
+func c15SameButSets(p, q c15Pol) bool {
 	if p.dflt != q.dflt || len(p.stmts) != len(q.stmts) {
 		return false
 	}
 	eq := func(a, b *uint32) bool { return (a == nil) == (b == nil) && (a == nil || *a == *b) }
 	for i := range p.stmts {
 		a, b := p.stmts[i], q.stmts[i]
-		if a.comm != b.comm || a.anyPeer != b.anyPeer || a.route != b.route || a.lenOp != b.lenOp || a.lenN != b.lenN || !eq(a.med, b.med) || !eq(a.lp, b.lp) || !eq(a.add, b.add) {
+		if a.route != b.route || a.lenOp != b.lenOp || a.lenN != b.lenN || !eq(a.med, b.med) || !eq(a.lp, b.lp) || !eq(a.add, b.add) {
+			return false
+		}
+		for kind := 0; kind < 4; kind++ {
+			if c15HasSet(a, kind) != c15HasSet(b, kind) {
+				return false
+			}
+		}
+		if (a.hasPfx && (len(a.pfx) == 0 || len(b.pfx) == 0)) || (a.hasAsp && (len(a.asp) == 0 || len(b.asp) == 0)) || (!a.anyPeer && (len(a.peers) == 0 || len(b.peers) == 0)) {
 			return false
 		}
 	}
@@ -332,15 +537,51 @@ func c15SameButNeighbors(p, q c15Pol) bool {
 
 var c15Tags = []uint32{0xfffd0001, 0xfffd0002, 0xfffd0003} // 65533:k on received routes
 
+// prefix-set entries over the three destinations 10.1.0.0/24, 10.2.0.0/24, 10.3.0.0/16; several
+// entries share one prefix key with different mask-length ranges
+var c15PfxPool = []c15PfxEnt{
+	{0x0a000000, 8, 16, 16}, {0x0a000000, 8, 24, 24}, {0x0a000000, 8, 17, 23},
+	{0x0a010000, 16, 24, 24}, {0x0a010000, 16, 16, 20},
+	{0x0a020000, 24, 24, 24}, {0x0a020000, 23, 24, 32},
+	{0x0a030000, 16, 16, 16}, {0x0a030000, 16, 17, 24},
+	{0x0a020000, 15, 16, 16}, {0x0a020000, 15, 24, 24},
+}
+
+var c15AspAsns = []uint32{65001, 65002, 65003, 100, 200, 300, 65000}
+
+func c15GenPfxSet(r *vRand) []c15PfxEnt {
+	var l []c15PfxEnt
+	for _, k := range r.perm(len(c15PfxPool))[:1+r.intn(3)] {
+		l = append(l, c15PfxPool[k])
+	}
+	return l
+}
+
+func c15GenAspSet(r *vRand) []c15AspEnt {
+	var l []c15AspEnt
+	seen := map[c15AspEnt]bool{}
+	for n := 1 + r.intn(2); n > 0; n-- {
+		e := c15AspEnt{mode: r.pick(0, 0, 1, 2, 3), asn: c15AspAsns[r.intn(len(c15AspAsns))]}
+		if !seen[e] {
+			seen[e] = true
+			l = append(l, e)
+		}
+	}
+	return l
+}
+
 func c15GenStmt(r *vRand, d int, nPeers int) c15Stmt {
 	s := c15Stmt{anyPeer: r.chance(35)}
 	switch x := r.intn(100); {
 	case x < 25:
+	case x < 75:
+		s.comms = []uint32{c15Tags[r.intn(len(c15Tags))]}
 	case x < 90:
-		s.comm = c15Tags[r.intn(len(c15Tags))]
+		p := r.perm(len(c15Tags))
+		s.comms = []uint32{c15Tags[p[0]], c15Tags[p[1]]}
 	default:
 		// a community an earlier statement of the same direction may have added
-		s.comm = uint32(0xfffb0001+d*0x10000) + uint32(r.intn(2))
+		s.comms = []uint32{uint32(0xfffb0001+d*0x10000) + uint32(r.intn(2))}
 	}
 	if !s.anyPeer {
 		for _, i := range r.perm(nPeers)[:1+r.intn(nPeers-1)] {
@@ -352,8 +593,17 @@ func c15GenStmt(r *vRand, d int, nPeers int) c15Stmt {
 		// a condition on an attribute UpdatePathAttrs rewrites toward eBGP peers
 		s.lenOp, s.lenN = 1+r.intn(3), 1+r.intn(3)
 		if r.chance(50) {
-			s.comm = 0
+			s.comms = nil
 		}
+	}
+	if r.chance(35) {
+		s.hasPfx, s.pfx = true, c15GenPfxSet(r)
+		if r.chance(50) {
+			s.comms = nil
+		}
+	}
+	if r.chance(20) {
+		s.hasAsp, s.asp = true, c15GenAspSet(r)
 	}
 	s.route = r.pick(0, 0, 0, 0, 1, 1, 2, 2, 2)
 	if r.chance(20) {
@@ -373,10 +623,110 @@ func c15GenStmt(r *vRand, d int, nPeers int) c15Stmt {
 
 func c15GenPol(r *vRand, d int, nPeers int) c15Pol {
 	p := c15Pol{dflt: !r.chance(12)}
-	for n := r.pick(0, 1, 1, 2, 2, 3); n > 0; n-- {
+	for n := r.pick(0, 1, 1, 2, 2, 2, 3); n > 0; n-- {
 		p.stmts = append(p.stmts, c15GenStmt(r, d, nPeers))
 	}
 	return p
+}
+
+func c15CloneStmt(s c15Stmt) c15Stmt {
+	s.comms = append([]uint32{}, s.comms...)
+	s.peers = append([]int{}, s.peers...)
+	s.pfx = append([]c15PfxEnt{}, s.pfx...)
+	s.asp = append([]c15AspEnt{}, s.asp...)
+	return s
+}
+
+// c15EditSet changes the members of one defined set of statement s (add a member, drop one, or
+// both), keeping the set non-empty. Returns false when s has no set.
+func c15EditSet(r *vRand, d int, nPeers int, s *c15Stmt) bool {
+	var kinds []int
+	for kind := 0; kind < 4; kind++ {
+		if c15HasSet(*s, kind) {
+			kinds = append(kinds, kind)
+		}
+	}
+	if len(kinds) == 0 {
+		return false
+	}
+	// prefix-sets are edited more often: their members are not independent (shared keys)
+	kind := kinds[r.intn(len(kinds))]
+	if s.hasPfx && r.chance(50) {
+		kind = 2
+	}
+	add, drop := r.chance(70), r.chance(40)
+	switch kind {
+	case 0:
+		if add {
+			c := c15Tags[r.intn(len(c15Tags))]
+			dup := false
+			for _, x := range s.comms {
+				dup = dup || x == c
+			}
+			if !dup {
+				s.comms = append(s.comms, c)
+			}
+		}
+		if drop && len(s.comms) > 1 {
+			k := r.intn(len(s.comms))
+			s.comms = append(s.comms[:k:k], s.comms[k+1:]...)
+		}
+	case 1:
+		if add {
+			c := r.intn(nPeers)
+			dup := false
+			for _, x := range s.peers {
+				dup = dup || x == c
+			}
+			if !dup {
+				s.peers = append(s.peers, c)
+			}
+		}
+		if drop && len(s.peers) > 1 {
+			k := r.intn(len(s.peers))
+			s.peers = append(s.peers[:k:k], s.peers[k+1:]...)
+		}
+	case 2:
+		if add {
+			c := c15PfxPool[r.intn(len(c15PfxPool))]
+			if r.chance(60) && len(s.pfx) > 0 {
+				// another range for a prefix the set already holds
+				have := s.pfx[r.intn(len(s.pfx))]
+				for _, p := range c15PfxPool {
+					if p.base == have.base && p.plen == have.plen && p != have {
+						c = p
+					}
+				}
+			}
+			dup := false
+			for _, x := range s.pfx {
+				dup = dup || x == c
+			}
+			if !dup {
+				s.pfx = append(s.pfx, c)
+			}
+		}
+		if drop && len(s.pfx) > 1 {
+			k := r.intn(len(s.pfx))
+			s.pfx = append(s.pfx[:k:k], s.pfx[k+1:]...)
+		}
+	default:
+		if add {
+			c := c15AspEnt{mode: r.pick(0, 0, 1, 2, 3), asn: c15AspAsns[r.intn(len(c15AspAsns))]}
+			dup := false
+			for _, x := range s.asp {
+				dup = dup || x == c
+			}
+			if !dup {
+				s.asp = append(s.asp, c)
+			}
+		}
+		if drop && len(s.asp) > 1 {
+			k := r.intn(len(s.asp))
+			s.asp = append(s.asp[:k:k], s.asp[k+1:]...)
+		}
+	}
+	return true
 }
 
 // c15Mutate derives the next policy from the current one (small changes are the common case
@@ -384,32 +734,33 @@ func c15GenPol(r *vRand, d int, nPeers int) c15Pol {
 func c15Mutate(r *vRand, d int, nPeers int, p c15Pol) c15Pol {
 	q := c15Pol{dflt: p.dflt}
 	for _, s := range p.stmts {
-		s.peers = append([]int{}, s.peers...)
-		q.stmts = append(q.stmts, s)
+		q.stmts = append(q.stmts, c15CloneStmt(s))
 	}
 	switch x := r.intn(100); {
-	case x < 25 || len(q.stmts) == 0:
+	case x < 20 || len(q.stmts) == 0:
 		return c15GenPol(r, d, nPeers)
-	case x < 35:
+	case x < 27:
 		i := r.intn(len(q.stmts))
 		q.stmts[i].route = r.pick(0, 1, 2)
-	case x < 55:
-		// neighbor-set membership only
-		i := r.intn(len(q.stmts))
-		if !q.stmts[i].anyPeer {
-			q.stmts[i].peers = nil
-			for _, k := range r.perm(nPeers)[:1+r.intn(nPeers-1)] {
-				q.stmts[i].peers = append(q.stmts[i].peers, k)
+	case x < 67:
+		// members of defined sets only (one to three edits)
+		done := 0
+		for n, tries := 1+r.intn(3), 0; n > 0 && tries < 20; tries++ {
+			i := r.intn(len(q.stmts))
+			before := (&c15Pol{stmts: []c15Stmt{q.stmts[i]}}).line("x")
+			if c15EditSet(r, d, nPeers, &q.stmts[i]) && (&c15Pol{stmts: []c15Stmt{q.stmts[i]}}).line("x") != before {
+				n--
+				done++
 			}
-			sort.Ints(q.stmts[i].peers)
-		} else {
-			q.stmts[i].comm = c15Tags[r.intn(len(c15Tags))]
 		}
-	case x < 60:
+		if done == 0 {
+			q.stmts = append([]c15Stmt{c15GenStmt(r, d, nPeers)}, q.stmts...)
+		}
+	case x < 70:
 		q.stmts = append(q.stmts[:0:0], q.stmts[1:]...)
-	case x < 72:
+	case x < 80:
 		q.stmts = append([]c15Stmt{c15GenStmt(r, d, nPeers)}, q.stmts...)
-	case x < 77:
+	case x < 84:
 		q.dflt = !q.dflt
 	default:
 		i := r.intn(len(q.stmts))
@@ -897,6 +1248,7 @@ func c15PeerLine(i int, sp vwPeerSpec) string {
 // complete reset and the metamorphic comparison with a fresh server.
 func c15History(t *testing.T, o *vOut, r *vRand, idx int) {
 	cw := newC15World(t)
+	cw.r = r
 	defer cw.w.stop()
 	rn := &c15Run{cw: cw, o: o}
 	w := cw.w
@@ -910,8 +1262,8 @@ func c15History(t *testing.T, o *vOut, r *vRand, idx int) {
 	}
 	nP := len(specs)
 	setPol := func(d int, pol c15Pol, mode int) {
-		if cw.name[d] != "" && c15SameButNeighbors(cw.cur[d], pol) {
-			if r.chance(70) {
+		if cw.name[d] != "" && c15SameButSets(cw.cur[d], pol) {
+			if r.chance(85) {
 				mode = 2
 			}
 		} else if mode == 2 {
@@ -920,8 +1272,12 @@ func c15History(t *testing.T, o *vOut, r *vRand, idx int) {
 		if mode == 1 && cw.name[d] != "" && pol.dflt != cw.cur[d].dflt {
 			mode = 0 // SetPolicies keeps the assignment's default action
 		}
-		how := cw.install(d, pol, mode)
-		o.stat("setpolicy_"+how, 1)
+		for _, how := range strings.Split(cw.install(d, pol, mode), ",") {
+			o.stat("setpolicy_"+how, 1)
+		}
+		cw.checkSets(d, func(class string, detail any) {
+			o.fail(class, map[string]any{"what": detail, "policy": pol.line(c15Dirs[d]), "history": rn.hist()})
+		})
 		rn.note("%s", pol.line(c15Dirs[d]))
 	}
 	// initial policies (sometimes none at all for a direction)
@@ -981,7 +1337,7 @@ func c15History(t *testing.T, o *vOut, r *vRand, idx int) {
 	routeEvents(14 + r.intn(30))
 	rn.check()
 	partial := []string{"softin", "softout", "softboth", "refresh", "softout", "refresh"}
-	for round := 1 + r.intn(2); round > 0; round-- {
+	for round := 1 + r.intn(3); round > 0; round-- {
 		// policy change (one or both directions)
 		both := r.chance(35)
 		d0 := r.intn(2)
@@ -1083,10 +1439,10 @@ var c15CorpusPeers = []string{
 var c15Corpus = [][]string{
 	// defect 1 (fixed): AddDefinedSet{Replace} left the statements evaluating the old neighbor set
 	append(append([]string{}, c15CorpusPeers...),
-		"pol imp 1 1 0 0 1 0 0 0 0 0 0 0 2 0 0 0", // reject everything from peer 0
+		"pol imp 1 1 0 0 1 0 0 0 0 0 0 0 2 0 0 0 0 0 0 0", // reject everything from peer 0
 		"up 0", "up 1", "up 2",
 		"polmode 2",
-		"pol imp 1 1 0 0 1 1 0 0 0 0 0 0 2 0 0 0", // neighbor set replaced: reject from peer 1 instead
+		"pol imp 1 1 0 0 1 1 0 0 0 0 0 0 2 0 0 0 0 0 0 0", // neighbor set edited in place: reject from peer 1 instead
 		"ann 0 0 0 1 0 0 0 0 0 0 0 0 0 1 2 1 65001",
 		"ann 1 1 0 2 0 0 0 0 0 0 0 0 0 1 2 1 65002",
 		"check", "fresh"),
@@ -1095,17 +1451,30 @@ var c15Corpus = [][]string{
 		"up 0", "up 2",
 		"ann 0 0 0 1 0 0 0 0 0 0 0 0 1 4294770689 1 2 1 65001",
 		"check",
-		"pol exp 1 1 4294770689 1 0 0 0 0 0 0 0 2 0 0 0", // reject 65533:1 toward everybody
+		"pol exp 1 1 1 4294770689 1 0 0 0 0 0 0 0 2 0 0 0 0 0 0 0", // reject 65533:1 toward everybody
 		"refresh 2",
 		"check", "fresh"),
 	// defect 3 (fixed): export policy on as-path-length >= 3, old best (length 2, 3 as sent) was
 	// sent, new best (length 1) is rejected, the raw old was rejected too -> no withdraw
 	append(append([]string{}, c15CorpusPeers...),
-		"pol exp 0 1 0 1 0 0 0 0 0 0 0 1 1 1 3",
+		"pol exp 0 1 0 1 0 0 0 0 0 0 0 1 1 1 3 0 0 0 0",
 		"up 0", "up 1", "up 2",
 		"ann 0 0 0 1 1 100 0 0 0 0 0 0 0 1 2 2 65001 100",
 		"check",
 		"ann 1 0 0 2 1 100 0 0 0 0 0 0 0 1 2 1 65002",
+		"check", "fresh"),
+	// class "defined set edited in place": a prefix-set holding 10.0.0.0/8 16..16 gets, by
+	// AddDefinedSet without replace, a second mask-length range for the SAME prefix; the import
+	// policy rejects what the set matches; the older range must keep matching after soft reset in
+	append(append([]string{}, c15CorpusPeers...),
+		"pol imp 1 1 0 1 0 0 0 0 0 0 0 2 0 0 0 1 1 167772160 8 16 16 0 0",
+		"up 0", "up 1", "up 2",
+		"ann 0 2 0 1 0 0 0 0 0 0 0 0 0 1 2 1 65001", // 10.3.0.0/16: rejected
+		"ann 1 0 0 2 0 0 0 0 0 0 0 0 0 1 2 1 65002", // 10.1.0.0/24: accepted
+		"check",
+		"polmode 2",
+		"pol imp 1 1 0 1 0 0 0 0 0 0 0 2 0 0 0 1 2 167772160 8 16 16 167772160 8 24 24 0 0",
+		"softinall",
 		"check", "fresh"),
 }
 
@@ -1175,6 +1544,9 @@ func c15Replay(t *testing.T, o *vOut, lines []string) *c15World {
 			cw.install(d, pol, mode)
 			mode = 0
 			rn.note("%s", line)
+			cw.checkSets(d, func(class string, detail any) {
+				o.fail(class, map[string]any{"what": detail, "policy": line, "history": rn.hist()})
+			})
 		case "check":
 			rn.check()
 		case "fresh":
